@@ -306,9 +306,47 @@ func encScenario(name, codec string) sx {
 	panic("harness: unknown enc scenario " + name)
 }
 
+// execFWD: (fwd codec k acc (ops...)) - the file writer driven directly; ops are (h) = WriteHeader and (b rows data) = WriteBlock
+func execFWD(a []sx) (out sx) {
+	codec, k, acc := a[0].atom, int(a[1].int()), int(a[2].int())
+	sch, err := avro.SchemaForType(recB{})
+	if err != nil {
+		return T("panic", hs("schema: "+err.Error()))
+	}
+	js, err := sch.Marshal()
+	if err != nil {
+		return T("panic", hs("marshal: "+err.Error()))
+	}
+	fw, err := avro.NewFileWriter(js, avro.Compression(codec))
+	if err != nil {
+		return T("panic", hs("NewFileWriter: "+err.Error()))
+	}
+	w := &recWriter{failAt: k, accept: acc}
+	defer func() {
+		if r := recover(); r != nil {
+			out = T("panic", hs(fmt.Sprint(r)))
+		}
+	}()
+	for i, o := range a[3].args() {
+		var err error
+		if o.tag() == "h" {
+			err = fw.WriteHeader(w)
+		} else {
+			err = fw.WriteBlock(w, int(o.args()[0].int()), o.args()[1].bytes())
+		}
+		if err != nil {
+			return T("res", I(int64(i)), I(int64(len(w.writes))), boolSx(errors.Is(err, errInjected)))
+		}
+	}
+	return T("res", A("none"), I(int64(len(w.writes))), A("true"))
+}
+
 func execENC(op string, a []sx) sx {
 	if op == "enc-scenario" {
 		return encScenario(a[0].atom, a[1].atom)
+	}
+	if op == "fwd" {
+		return execFWD(a)
 	}
 	codec, bs, rectype := a[0].atom, int(a[1].int()), a[2].atom
 	k, acc := int(a[3].int()), int(a[4].int())
@@ -417,6 +455,39 @@ func genENC(c *ctx, faults bool) {
 			}
 			for _, acc := range accs {
 				c.emit(T("enc", A(codec), I(int64(bs)), A(rectype), I(int64(k)), I(int64(acc)), ops))
+			}
+		}
+	}
+	if faults {
+		// the file writer driven directly: any row counts (0 = empty block), failure at every write index and one past the end
+		recEnc := func(b []byte) []byte {
+			w := avro.NewWriteBuf(nil)
+			w.Varint(int64(len(b)))
+			w.Write(b)
+			return append([]byte(nil), w.Bytes()...)
+		}
+		for h := 0; h < c.scale(6, 60); h++ {
+			codec := codecs[h%3]
+			ops := T("ops", T("h"))
+			nb := 1 + c.rng.Intn(4)
+			for b := 0; b < nb; b++ {
+				rows := []int{0, 0, 1, 2, 3}[c.rng.Intn(5)]
+				if h < 3 {
+					rows = []int{0, 1, 0, 3}[b%4]
+				}
+				var data []byte
+				for r := 0; r < rows; r++ {
+					p := make([]byte, c.rng.Intn(6))
+					c.rng.Read(p)
+					data = append(data, recEnc(p)...)
+				}
+				ops.list = append(ops.list, T("b", I(int64(rows)), H(data)))
+			}
+			total := 1 + 4*nb
+			for k := 1; k <= total+1; k++ {
+				for acc := 0; acc <= 1; acc++ {
+					c.emit(T("fwd", A(codec), I(int64(k)), I(int64(acc)), ops))
+				}
 			}
 		}
 	}
